@@ -11,7 +11,7 @@ from vp.runner import open_risks, stable_hash
 
 PID = 'C10'
 LEVEL = 'exploration'
-RULE = ("seeded models with 1-3 delays on 1-3 state variables written as past(x, tau) or x(t-tau) (1-2 nodes, optional delayed "
+RULE = ("seeded models with 1-3 delays on 1-3 state variables written as past(x, tau) or x(t-tau) (1-2 nodes, or 2-4 structurally identical nodes compiled with vectorize=True; optional delayed "
         "edges under an adaptive solver); (a) the compiled function is called with a hand-made analytic history "
         "hist(t)_i = sin(a_i t + b_i) at random (t, y) for fixed-step builds (t is a step counter) and adaptive builds and must "
         "equal the reference RHS evaluated with hist(t - tau); (b) run() with euler/heun is compared with a method-of-steps "
@@ -19,7 +19,7 @@ RULE = ("seeded models with 1-3 delays on 1-3 state variables written as past(x,
         "reference solution; non-trivial = >= 1 delayed term on a variable that is not the first state variable or >= 2 "
         "delays; distinct = distinct (spec, mode) hash")
 DECIDING = ['probe_points_fixed', 'probe_points_adaptive', 'euler_rows_compared', 'scipy_rows_compared', 'delays_on_nonfirst_state',
-            'multi_delay_models', 'tminus_syntax', 'past_syntax']
+            'multi_delay_models', 'tminus_syntax', 'past_syntax', 'vectorized_models']
 ASSUMPTIONS = ['delayed variables are state variables of the operator that uses them', 'constant pre-history = declared initial state',
                'adaptive runs: PyRates records accepted steps only, its linear interpolation error is tolerated (2e-3 relative)']
 CASE_TIMEOUT = 300
@@ -34,6 +34,10 @@ def plan(tier, seed):
         r = rnd.random()
         mode = 'probe_fixed' if r < 0.3 else 'probe_adaptive' if r < 0.6 else 'euler' if r < 0.8 else 'heun' if r < 0.87 else 'scipy'
         cases.append({'family': 'main', 'cseed': rnd.randrange(1 << 30), 'mode': mode})
+    # vectorized DDE models: 2-4 structurally identical nodes (merged into vector-valued variables) with past() terms
+    for _ in range(40 if tier == 'quick' else 900):
+        cases.append({'family': 'vectorized', 'cseed': rnd.randrange(1 << 30), 'vec_n': rnd.choice([2, 2, 3, 4]),
+                      'mode': rnd.choice(['probe_fixed', 'probe_adaptive', 'probe_adaptive', 'euler', 'scipy'])})
     opened = open_risks(PID)
     k = 10 if tier == 'quick' else 80
     for feat in FOCUS:
@@ -55,11 +59,13 @@ def warmup(ctx):
     monitors.install()
 
 
-def gen_dde(rnd, want=None):
+def gen_dde(rnd, want=None, single=False):
     """small DDE spec: 1-2 nodes, each with one operator with 2-3 state variables, delayed terms on some."""
     vals = gen.Vals(rnd)
     ops, nts, nodes = {}, {}, {}
     n_nodes = rnd.choice([1, 1, 2]) if want not in ('delayed_edge_adaptive', 'edge_delay_exactly_one') else 2
+    if single:
+        n_nodes = 1
     style = rnd.choice(['past', 't-'])
     n_delays_total = 0
     nonfirst = False
@@ -203,9 +209,15 @@ def run_case(case, ctx):
         spec, info = case['spec'], case['info']
     else:
         for _ in range(200):
-            spec, info = gen_dde(rnd, case.get('want'))
+            spec, info = gen_dde(rnd, case.get('want'), single=case.get('family') == 'vectorized')
             if info['n_delays'] >= 1 and (case.get('want') != 'negative_coefficient_on_past' or info['neg']):
                 break
+        if case.get('family') == 'vectorized':
+            # replicate the node: same operator, unique initial values (and, half of the time, unique constants) per node
+            N = case['vec_n']
+            spec['circ']['nodes'] = {f'n{i}': 'nt0' for i in range(N)}
+            spec = gen.individualize(spec, rnd, params=rnd.choice(['different', 'equal']))
+            info['vec_n'] = N
     mode = case['mode']
     E.PAST_STYLE[0] = info['style']
     mech = {}
@@ -226,6 +238,10 @@ def run_case(case, ctx):
     if info['n_delays'] >= 2:
         mech['multi_delay_models'] = 1
     dt = 1e-3
+    vec = bool(info.get('vec_n'))
+    if vec:
+        mech['vectorized_models'] = 1
+        res['features'].append(f"vec{info['vec_n']}")
     try:
         if mode.startswith('probe'):
             adaptive = mode == 'probe_adaptive'
@@ -235,12 +251,12 @@ def run_case(case, ctx):
                 return np.array([math.sin(coef[i][0] * t + coef[i][1]) for i in range(len(coef))])
             # build once to learn the state layout, then again with the hand-made history
             try:
-                obs = observe.compile_vf(spec, vectorize=False, solver='scipy' if adaptive else 'euler', step_size=dt)
+                obs = observe.compile_vf(spec, vectorize=vec, solver='scipy' if adaptive else 'euler', step_size=dt)
                 pos = observe.locate_states(obs, ref)
                 n = len(np.asarray(obs['args'][1]))
                 for i in range(n):
                     coef[i] = (rnd.uniform(20, 90), rnd.uniform(0, 3))
-                obs = observe.compile_vf(spec, vectorize=False, solver='scipy' if adaptive else 'euler', step_size=dt, hist=hvec)
+                obs = observe.compile_vf(spec, vectorize=vec, solver='scipy' if adaptive else 'euler', step_size=dt, hist=hvec)
             except observe.Mismatch:
                 raise
             except Exception as e:
@@ -277,7 +293,7 @@ def run_case(case, ctx):
             T = steps * dt
             kw = {}
             try:
-                df = observe.run_model(spec, T=T, dt=dt, solver=mode, outputs=outputs, vectorize=False, **kw)
+                df = observe.run_model(spec, T=T, dt=dt, solver=mode, outputs=outputs, vectorize=vec, **kw)
             except Exception as e:
                 import traceback
                 raise observe.Mismatch(f"loud: run raised {type(e).__name__}: {e} :: {traceback.format_exc()[-500:]}")
